@@ -54,6 +54,8 @@ def build_samplers(cfg, ctor_seed_shift=0):
     for d in cfg["lineup"]:
         seed = d["seed"] if ctor_seed_shift == 0 else (None if ctor_seed_shift is None else (d["seed"] + ctor_seed_shift) % 2**31)
         out.append(G.build_sampler(d, seed_override=seed))
+    for (i, j) in cfg.get("alias", []):     # the same sampler OBJECT appears twice in the line-up
+        out[j] = out[i]
     return out
 
 
@@ -78,10 +80,12 @@ def model_for(cfg):
     return M.WITNESS[(cfg["model"], cfg["D"])]
 
 
-def build_calibrator(cfg, *, n_jobs=1, verbose=False, folder=None, ctor_seed_shift=0, model=None, loss=None):
+def build_calibrator(cfg, *, n_jobs=1, verbose=False, folder=None, ctor_seed_shift=0, model=None, loss=None, keep=None):
     from black_it.calibrator import Calibrator
 
     samplers = build_samplers(cfg, ctor_seed_shift)
+    if keep is not None:
+        keep["samplers"] = samplers     # the very list object handed to the library
     kw = {"samplers": samplers} if cfg["scheduler"] == "list" else {"scheduler": build_scheduler(cfg, samplers)}
     rd = real_data(cfg)
     return Calibrator(
